@@ -184,3 +184,114 @@ func c18NowHistory(c *Ctx, binEnv string, done chan<- struct{}) {
 		}
 	}
 }
+
+// c18SameParams: one connection, one secret, digits, hash and period throughout; timestamps second by second across
+// step boundaries in both directions, the last second of a step directly followed by the first second of the next,
+// walks over adjacent and bit-related steps / counters, and validation along the same walk with the own code, the
+// window's edges and the first codes outside. Whatever the service remembers about "this account's current code" is
+// driven across the points where it has to let go. Judged by the C18 oracle.
+func c18SameParams(c *Ctx, srv *server, rounds int) {
+	r := c.R
+	rng := c.RNG.Fork(1872)
+	for w := 0; w < rounds; w++ {
+		key := rng.Bytes(20)
+		sec := ref.Base32EncodeNoPad(key)
+		dg := gen.Pick(rng, []string{"", "6", "8", "10"})
+		al := gen.Pick(rng, []string{"", "SHA1", "SHA256", "SHA512"})
+		period := gen.Pick(rng, []uint64{0, 30, 60, 1, 2, 7, 3600})
+		pp := period
+		if pp == 0 {
+			pp = 30
+		}
+		base := func() map[string]any {
+			f := map[string]any{"secret": sec}
+			if dg != "" {
+				f["digits"] = dg
+			}
+			if al != "" {
+				f["algorithm"] = al
+			}
+			return f
+		}
+		gt := func(ts uint64, note string) {
+			f := base()
+			f["timestamp"] = ts
+			if period != 0 {
+				f["period"] = period
+			}
+			judgeREST(c, srv, restCase{EP: "totp/generate", Method: "POST", F: f, KeyHex: hexs(key), Note: note})
+			r.Count("same_parameter_history_requests", 1)
+		}
+		gh := func(ctr uint64, note string) {
+			f := base()
+			f["counter"] = ctr
+			judgeREST(c, srv, restCase{EP: "hotp/generate", Method: "POST", F: f, KeyHex: hexs(key), Note: note})
+			r.Count("same_parameter_history_requests", 1)
+		}
+		k0 := uint64(3 + rng.Intn(1<<20))
+		lo, hi := k0*pp-2, (k0+1)*pp+2
+		for ts := lo; ts <= hi; ts++ {
+			if pp > 10 && ts > lo+4 && ts+4 < (k0+1)*pp {
+				continue
+			}
+			gt(ts, "same parameters, second by second upwards across step boundaries")
+		}
+		for ts := hi; ts >= lo; ts-- {
+			if pp > 10 && ts > lo+4 && ts+4 < (k0+1)*pp {
+				continue
+			}
+			gt(ts, "same parameters, second by second downwards across step boundaries")
+		}
+		for i := 0; i < 6; i++ {
+			k := k0 + uint64(rng.Intn(50))
+			gt(k*pp+uint64(rng.Intn(int(pp))), "same parameters, somewhere inside a step")
+			gt((k+1)*pp, "same parameters, then the first second of the next step")
+			gt((k+1)*pp-1, "same parameters, then the last second of the step before")
+			gt((k+2)*pp-1, "same parameters, last second of a step")
+			gt((k+2)*pp, "same parameters, directly followed by the first second of the next step")
+		}
+		offs := stepWalkOffsets(rng, 110)
+		for _, off := range offs {
+			step := uint64(int64(k0+300) + off)
+			if w%2 == 0 {
+				gt(step*pp+uint64(rng.Intn(int(pp))), "same parameters, walk over adjacent steps")
+			} else {
+				gh(step, "same parameters, walk over adjacent counters")
+			}
+		}
+		for i, v := range relatedCounters(rng, k0, (1<<62-3600)/pp) {
+			if i > 200 {
+				break
+			}
+			if w%2 == 0 {
+				gh(v, "same parameters, bit-related counters")
+			} else if v > 0 {
+				gt(v*pp+uint64(rng.Intn(int(pp))), "same parameters, bit-related steps")
+			}
+		}
+		skew := uint64(rng.Intn(4))
+		d, a := restDigits(dg), restAlgo(al)
+		for i, off := range offs {
+			if i > 40 {
+				break
+			}
+			step := uint64(int64(k0+300) + off)
+			for j, x := range []uint64{step, step - skew, step + skew, step + skew + 1, step - skew - 1} {
+				f := base()
+				f["code"], f["skew"] = ref.HOTP(key, x, d, a), skew
+				note := fmt.Sprintf("same parameters, validation walk, code %d of (own, low edge, high edge, above, below), window %d", j, skew)
+				if w%2 == 0 {
+					f["timestamp"] = step*pp + uint64(rng.Intn(int(pp)))
+					if period != 0 {
+						f["period"] = period
+					}
+					judgeREST(c, srv, restCase{EP: "totp/validate", Method: "POST", F: f, KeyHex: hexs(key), Note: note})
+				} else {
+					f["counter"] = step
+					judgeREST(c, srv, restCase{EP: "hotp/validate", Method: "POST", F: f, KeyHex: hexs(key), Note: note})
+				}
+				r.Count("same_parameter_history_requests", 1)
+			}
+		}
+	}
+}
